@@ -107,3 +107,24 @@ Lemma cond_rows_example :
   (* a census that records the better branch for a conditional field is rejected *)
   cond_rows_ok [("Keyvalues"%string, cr_census_claims_deep)] [("Keyvalues"%string, "_value"%string, HDeep, HShare)] = false.
 Proof. repeat split; reflexivity. Qed.
+
+(** A guarded post-construction store carries every value iff the guard fails only on the default. *)
+Lemma guarded_store_complete_iff : forall A (g : A -> bool) (d : A),
+  (forall v, guarded_store g d v = v) <-> (forall v, g v = false -> v = d).
+Proof.
+  intros A g d. unfold guarded_store. split.
+  - intros H v Hg. specialize (H v). rewrite Hg in H. symmetry. exact H.
+  - intros H v. destruct (g v) eqn:E; [reflexivity|]. symmetry. apply H. exact E.
+Qed.
+
+(** [if self.f is not None:] with default None carries every value ... *)
+Lemma is_not_none_guard_complete : forall v : optlist, guarded_store g_is_not_none None v = v.
+Proof. intros [l|]; reflexivity. Qed.
+
+(** ... [if self.f:] loses exactly the EMPTY list (the copy gets None: `point_data { numpts 0 }` disappears). *)
+Lemma truthy_guard_loses_empty :
+  guarded_store g_truthy None (Some []) <> Some [] /\
+  forall v : optlist, v <> Some [] -> guarded_store g_truthy None v = v.
+Proof.
+  split; [discriminate|]. intros [[|z l]|] H; try reflexivity. exfalso. apply H. reflexivity.
+Qed.
